@@ -13,6 +13,8 @@
    call that is not a nowait send ([awaits_first s c]). *)
 From Coq Require Import ZArith List Bool.
 From Verif Require Import Imp TxnTable C16_TxnApi C16_proof.
+From Verif Require DispatchActs TxnInitPidDispatch TxnAddPartitionsDispatch TxnAddOffsetsDispatch
+  TxnOffsetCommitDispatch TxnEndDispatch C16_dispatch C16_agree.
 Import ListNotations.
 
 (* the table used by the model is the translated function *)
@@ -210,6 +212,66 @@ Theorem c16_fatal_classes_refuted :
     (mkT READY false false false false None true false false false, ROk, [REndTxn true]).
 Proof. split; [exact fatal_full_refuted | exact fatal_full_witness]. Qed.
 Print Assumptions c16_fatal_classes_refuted.
+
+(* ---- the error dispatch of the five transactional response handlers, regenerated from sender.py on
+   every run (translator/dispatch2gallina.py, gen/Txn*Dispatch.v) and validated against the real
+   handlers for every code -1..100 -------------------------------------------------------------------- *)
+
+(* the per-handler classification this model uses (cl_add_partitions, cl_add_offsets,
+   cl_txn_offset_commit, cl_end_txn) is the one the source implements, for every error code of the model:
+   same class (retry / abortable / fatal) and same coordinator rediscovery *)
+Theorem c16_model_classification_agrees_with_source : forall c : code,
+  (forall b, C16_agree.class_of_action (cl_add_partitions c) =
+             C16_agree.of_chain (TxnAddPartitionsDispatch.txnAddPartitionsDispatch (code_num c) b)) /\
+  C16_agree.class_of_action (cl_add_offsets c) =
+    C16_agree.of_chain (TxnAddOffsetsDispatch.txnAddOffsetsDispatch (code_num c)) /\
+  C16_agree.class_of_action (cl_txn_offset_commit c) =
+    C16_agree.of_chain (TxnOffsetCommitDispatch.txnOffsetCommitDispatch (code_num c)) /\
+  C16_agree.class_of_action (cl_end_txn c) =
+    C16_agree.of_chain (TxnEndDispatch.txnEndDispatch (code_num c)).
+Proof. exact C16_agree.model_agrees_with_source. Qed.
+Print Assumptions c16_model_classification_agrees_with_source.
+
+(* fencing and transactional-id authorization are fatal in every handler where they can arrive;
+   topic / group authorization failures are abortable (recorded, not raised out of the sender) *)
+Theorem c16_source_fatal_and_abortable_classes :
+  ((forall b, C16_dispatch.classify (TxnAddPartitionsDispatch.txnAddPartitionsDispatch C16_dispatch.FENCED b) = C16_dispatch.TFatal) /\
+   C16_dispatch.classify (TxnAddOffsetsDispatch.txnAddOffsetsDispatch C16_dispatch.FENCED) = C16_dispatch.TFatal /\
+   C16_dispatch.classify (TxnOffsetCommitDispatch.txnOffsetCommitDispatch C16_dispatch.FENCED) = C16_dispatch.TFatal /\
+   C16_dispatch.classify (TxnEndDispatch.txnEndDispatch C16_dispatch.FENCED) = C16_dispatch.TFatal /\
+   C16_dispatch.classify (TxnInitPidDispatch.txnInitPidDispatch C16_dispatch.TXN_ID_AUTH) = C16_dispatch.TFatal /\
+   (forall b, C16_dispatch.classify (TxnAddPartitionsDispatch.txnAddPartitionsDispatch C16_dispatch.TXN_ID_AUTH b) = C16_dispatch.TFatal) /\
+   C16_dispatch.classify (TxnAddOffsetsDispatch.txnAddOffsetsDispatch C16_dispatch.TXN_ID_AUTH) = C16_dispatch.TFatal /\
+   C16_dispatch.classify (TxnOffsetCommitDispatch.txnOffsetCommitDispatch C16_dispatch.TXN_ID_AUTH) = C16_dispatch.TFatal /\
+   C16_dispatch.classify (TxnEndDispatch.txnEndDispatch C16_dispatch.TXN_ID_AUTH) = C16_dispatch.TFatal) /\
+  ((forall b, C16_dispatch.classify (TxnAddPartitionsDispatch.txnAddPartitionsDispatch C16_dispatch.TOPIC_AUTH b) = C16_dispatch.TAbortable) /\
+   C16_dispatch.classify (TxnAddOffsetsDispatch.txnAddOffsetsDispatch C16_dispatch.GROUP_AUTH) = C16_dispatch.TAbortable /\
+   C16_dispatch.classify (TxnOffsetCommitDispatch.txnOffsetCommitDispatch C16_dispatch.GROUP_AUTH) = C16_dispatch.TAbortable).
+Proof. split; [exact C16_dispatch.fatal_classes | exact C16_dispatch.abortable_classes]. Qed.
+Print Assumptions c16_source_fatal_and_abortable_classes.
+
+(* for EVERY integer code: an error code no branch names is fatal in the EndTxn, AddOffsetsToTxn,
+   TxnOffsetCommit, AddPartitionsToTxn and InitProducerId handlers - never silently ignored or retried *)
+Theorem c16_source_unnamed_codes_are_fatal : forall c,
+  (~ In c TxnEndDispatch.txnEndDispatch_named_codes ->
+     C16_dispatch.classify (TxnEndDispatch.txnEndDispatch c) = C16_dispatch.TFatal) /\
+  (~ In c TxnAddOffsetsDispatch.txnAddOffsetsDispatch_named_codes ->
+     C16_dispatch.classify (TxnAddOffsetsDispatch.txnAddOffsetsDispatch c) = C16_dispatch.TFatal) /\
+  (~ In c TxnOffsetCommitDispatch.txnOffsetCommitDispatch_named_codes ->
+     C16_dispatch.classify (TxnOffsetCommitDispatch.txnOffsetCommitDispatch c) = C16_dispatch.TFatal) /\
+  (forall b, ~ In c TxnAddPartitionsDispatch.txnAddPartitionsDispatch_named_codes ->
+     C16_dispatch.classify (TxnAddPartitionsDispatch.txnAddPartitionsDispatch c b) = C16_dispatch.TFatal) /\
+  (~ In c TxnInitPidDispatch.txnInitPidDispatch_named_codes ->
+     C16_dispatch.classify (TxnInitPidDispatch.txnInitPidDispatch c) = C16_dispatch.TFatal).
+Proof.
+  intros c. repeat split.
+  - exact (C16_dispatch.unnamed_codes_fatal_end c).
+  - exact (C16_dispatch.unnamed_codes_fatal_add_offsets c).
+  - exact (C16_dispatch.unnamed_codes_fatal_offset_commit c).
+  - intros b. exact (C16_dispatch.unnamed_codes_fatal_add_partitions c b).
+  - exact (C16_dispatch.unnamed_codes_fatal_init c).
+Qed.
+Print Assumptions c16_source_unnamed_codes_are_fatal.
 
 (* non-vacuity: the started state exists and is well-formed; a full protocol run with an abortable
    error, recovery and a second transaction *)
